@@ -956,7 +956,8 @@ def e2_plans(ctx, menu, monitors, entry="fit", conform=True, inits="all"):
         d = get_driver(name, ctx.seed)
         ii = all_labellings(d.Tp, d.K) if inits == "all" else inits(d)
         out.append(dict(driver=name, seed=ctx.seed, inits=ii, limits=limits, bound=bound, entry=entry,
-                        monitors=monitors, conform=conform, subset_cap=64 if ctx.thorough else 10))
+                        monitors=monitors, conform=conform,
+                        subset_cap=64 if (ctx.thorough and bound <= 1) else 10))
     return out
 
 
